@@ -86,6 +86,7 @@ fn main() {
         "static-eval" => search::static_eval(rest),
         "search-sched" => search::sched(rest),
         "search-native" => search::native(rest),
+        "search-seqtrace" => search::seqtrace(rest),
         "record-cache" => cache::main(rest),
         "record-eval" => evalrec::main(rest),
         "perft" => perft::main(rest),
